@@ -364,6 +364,7 @@ def r7(run):
 RULES = [
     ("R-C06-1", "every Store::read site with a context in scope builds its options with the context slot Set from that context", r1),
     ("R-C06-2", "every read_sync / head call and the unbuffered .append default pass the owner's context (or an explicit flag), never ZERO by default", r2),
+    ("R-C06-8", "a live frame of another context is skipped: it never ends the scoped follower's stream (shared with R-C11-8)", lambda run: __import__("rules.C11", fromlist=["r8"]).r8(run)),
     ("R-C06-3", "live filter: delivery only on the frame.context_id == requested edge; the scan uses the same option", r3),
     ("R-C06-4", "handler output is re-homed: context_id := self.context_id dominates every append in process_frame", r4),
     ("R-C06-5", "script commands (.cat/.head/.append) are constructed with the owning frame's context and keep it", r5),
